@@ -12,7 +12,7 @@ RULE = ("(a) model seam: create_hydraulic_model on R-pipe-J; (Pmin,Preq) in {(0,
         "{0.5,0.4,0.75,1.0} x requested demand {0,1e-4,0.01,1} x {global, per-junction override of all / each parameter}; the "
         "compiled residual of m.pdd[J] at demand 0 is swept over 400 uniform pressures in [Pmin-5, Preq+5] plus 12 points "
         "around each of the four branch edges; (b) system seam: PDD runs with reservoir heads placing the junction in every "
-        "regime, and a two-junction network where only one junction carries overrides; (c) dynamic seam: 6-step runs in which a head "
+        "regime (also with the simulator object created, or already run demand-driven, before the model is switched to PDD), and a two-junction network where only one junction carries overrides; (c) dynamic seam: 6-step runs in which a head "
         "pattern walks the junction through all regimes while the requested demand follows a pattern and a time control changes "
         "one per-junction parameter {none, required_pressure, minimum_pressure, pressure_exponent} at 2 h. oracle: zero/full/power-law values, "
         "monotone, continuous, overrides local.  thorough: 13 (Pmin,Preq) pairs incl. a band barely wider than the two smoothing zones, both-sides-of-zero and 0..100 m, "
@@ -66,6 +66,9 @@ def _cases(tier, PAIRS, EXPS, DEMS):
     for (pmin, preq), e, mode in itertools.product(PAIRS, EXPS, ("global", "junction_all")):
         for h in heads:
             out.append({"seam": "system", "pmin": pmin, "preq": preq, "exp": e, "mode": mode, "rhead": round(pmin + h * (preq - pmin) / 20.0 + 0.3, 6)})
+            if mode == "global" and e in (0.5, 1.0) and h in (-3.0, 2.0, 10.0, 25.0):
+                for order in ("sim-first", "dd-run-first"):
+                    out.append({"seam": "system", "pmin": pmin, "preq": preq, "exp": e, "mode": mode, "rhead": round(pmin + h * (preq - pmin) / 20.0 + 0.3, 6), "order": order})
     for (pmin, preq), e in itertools.product(PAIRS, EXPS):
         out.append({"seam": "override-local", "pmin": pmin, "preq": preq, "exp": e})
     # (c) dynamic seam: a 6-step run in which a reservoir head pattern walks the junction through all regimes, the requested
@@ -153,7 +156,22 @@ def model_seam(c):
 def system_seam(c):
     pmin, preq, e = c["pmin"], c["preq"], c["exp"]
     s = one_junction(dict(c, D=0.01), rhead=2.0 + c["rhead"])
-    r = simulate(s)
+    if c.get("order"):
+        # order of API calls: the simulator object exists BEFORE the model is switched to the pressure-dependent demand
+        # model (sim-first), or has already run the model demand-driven (dd-run-first, reset in between)
+        import wntr, warnings
+        wn = build(s)
+        wn.options.hydraulic.demand_model = "DD"
+        sim = wntr.sim.WNTRSimulator(wn)
+        with warnings.catch_warnings():
+            warnings.simplefilter("ignore")
+            if c["order"] == "dd-run-first":
+                sim.run_sim()
+                wn.reset_initial_values()
+            wn.options.hydraulic.demand_model = "PDD"
+            r = wrap(sim.run_sim(), wn)
+    else:
+        r = simulate(s)
     if r.error:
         return {"viol": [], "nontrivial": False, "outcome": "not-converged", "counts": {"not_converged": 1}}
     p, d = float(r.node["pressure"]["J"][0]), float(r.node["demand"]["J"][0])
